@@ -84,6 +84,9 @@ def search_cover(ctx):
             _rec(d, "match_at-arg|" + kind, g.lstrip("!") == "match_at(a1, %s, false)" % J, "match_at must be tried at the iterated position itself; found %s" % g[:120], loc)
         if ma and not ma[-1].startswith("!"):
             _rec(d, "true-on-match|" + kind, r == "true", "a successful match_at must answer true", loc)
+        if p.end == "return" and r == "true":
+            # ... and nothing else does: match_at is what runs the program, counts the groups and records the span
+            _rec(d, "true-only-from-match_at|" + kind, bool(ma) and not ma[-1].startswith("!"), "matches() answers true on a path on which match_at did not succeed (guards %s): a shortcut beside the program leaves the group count and the captures as they were" % gs[-3:], loc)
         if ma and ma[-1].startswith("!"):
             _rec(d, "continue-on-failure|" + kind, p.end.startswith("loop"), "after a failed match_at the scan must go on with the next position; found %s" % (r if p.end == "return" else p.end), loc)
         if kind == "class":
